@@ -551,7 +551,8 @@ def run_unit(name, tier="quick", use_cache=True, canary=True, repo=None):
             continue
         _, _, rest = st.partition("//@ compile-run ")
         tg, _, expect = rest.partition(" ")
-        oid = "%s::compiled-run" % name
+        ncr = len([k for k in order if "::compiled-run" in k])
+        oid = "%s::compiled-run" % name if ncr == 0 else "%s::compiled-run#%d" % (name, ncr)
         o = add(oid, "main", "compiled-run", tg.split(","), None,
                 "the verified code compiled with `verus --compile` and executed; stdout must match: " + expect)
         if res["status"] != "ok" or nfail:
